@@ -176,11 +176,7 @@ Definition calc_closed (v : N) (a b : option bytes) : soutcome :=
   match a with
   | None => SOOk b
   | Some x =>
-      if (0 <? v)%N then
-        match b with
-        | None => SOErr
-        | Some y => SOOk (Some (enc32 (redn (Z.of_N v * sc x + sc y))))
-        end
+      if (0 <? v)%N then SOOk (Some (enc32 (redn (Z.of_N v * sc x + sval b))))
       else SOOk b
   end.
 
@@ -196,13 +192,14 @@ Proof.
   2:{ split; [reflexivity|]. destruct B as [[ob b]|]; reflexivity. }
   rewrite sinplace_local. cbv beta. rewrite ec_tweak_mul_amount by (try assumption; lia).
   cbn [fst snd negb].
-  destruct B as [[ob b]|]; cbn [scopy dat option_map sb_dat] in *.
-  2:{ split; reflexivity. }
+  pose proof (sc_nonneg a) as Pa.
+  rewrite (redn_small (sc a)) by lia.
+  destruct B as [[ob b]|]; cbn [scopy dat option_map sb_dat sval] in *.
+  2:{ split; [reflexivity|]. cbn [sout_of fst option_map sb_dat].
+      rewrite Z.add_0_r, (Z.mul_comm (Z.of_N v)). reflexivity. }
   destruct HB as [Lb Bb].
   rewrite sinplace_local, ec_negate_32 by assumption. cbn [fst snd negb].
   unfold sbuf_eqb. cbn [sdat sb_dat].
-  pose proof (sc_nonneg a) as Pa.
-  rewrite (redn_small (sc a)) by lia.
   destruct (bytes_eqb _ _) eqn:E.
   - split; [reflexivity|]. cbn [sout_of option_map szero_buf sb_dat fst].
     apply bytes_eqb_eq in E. apply enc32_inj in E; try apply redn_range.
@@ -220,7 +217,7 @@ Lemma calc_closed_ok v a b o : okscalar a -> okscalar b -> calc_closed v a b = S
 Proof.
   intros Ha Hb. unfold calc_closed. destruct a as [x|].
   - destruct (0 <? v)%N.
-    + destruct b as [y|]; [|discriminate]. intro E. inversion E; subst. apply okscalar_enc.
+    + intro E. inversion E; subst. apply okscalar_enc.
     + intro E. inversion E; subst. exact Hb.
   - intro E. inversion E; subst. exact Hb.
 Qed.
@@ -232,9 +229,12 @@ Definition sub_closed (a b : option bytes) : soutcome :=
   | Some y =>
       match a with
       | None => SOOk (Some (enc32 (redn (- sc y))))
-      | Some x => if redn (sc x - sc y) =? 0 then SOErr else SOOk (Some (enc32 (redn (sc x - sc y))))
+      | Some x => SOOk (Some (enc32 (redn (sc x - sc y))))
       end
   end.
+
+Lemma redn_0 : redn 0 = 0.
+Proof. reflexivity. Qed.
 
 Lemma sub_w_closed A B w : okscalar (dat A) -> okscalar (dat B) ->
   snd (sub_scalars_w A B w) = w /\ sout_of (fst (sub_scalars_w A B w)) = sub_closed (dat A) (dat B).
@@ -243,17 +243,24 @@ Proof.
   destruct B as [[ob b]|]; cbn [scopy dat option_map sb_dat] in *.
   2:{ split; [reflexivity|]. destruct A as [[oa a]|]; reflexivity. }
   destruct HB as [Lb Bb]. pose proof (sc_nonneg b) as Pb.
-  rewrite sinplace_local, ec_negate_32 by assumption. cbn [fst snd negb].
-  rewrite (redn_small (sc b)) by lia.
-  destruct A as [[oa a]|]; cbn [scopy dat option_map sb_dat] in *.
-  2:{ split; reflexivity. }
+  destruct A as [[oa a]|]; cbn [scopy dat option_map sb_dat andb] in *.
+  2:{ rewrite sinplace_local, ec_negate_32 by assumption. cbn [fst snd negb].
+      rewrite (redn_small (sc b)) by lia. split; reflexivity. }
   destruct HA as [La Ba]. pose proof (sc_nonneg a) as Pa.
-  rewrite sinplace_local. cbv beta. cbn [sdat sb_dat].
-  rewrite ec_tweak_add_32; try assumption; try apply enc32_length.
-  2:{ rewrite sc_enc32 by apply redn_range. apply redn_lt. }
-  rewrite sc_enc32 by apply redn_range. rewrite redn_add_r, (redn_small (sc a)) by lia.
-  rewrite Z.add_opp_r.
-  destruct (redn (sc a - sc b) =? 0); split; reflexivity.
+  unfold sbuf_eqb. cbn [sdat sb_dat].
+  destruct (bytes_eqb a b) eqn:E.
+  - apply bytes_eqb_eq in E. subst b. split; [reflexivity|].
+    cbn [sout_of fst option_map sb_dat]. rewrite Z.sub_diag, redn_0, zero32_enc. reflexivity.
+  - rewrite sinplace_local, ec_negate_32 by assumption. cbn [fst snd negb].
+    rewrite (redn_small (sc b)) by lia.
+    rewrite sinplace_local. cbv beta. cbn [sdat sb_dat].
+    rewrite ec_tweak_add_32; try assumption; try apply enc32_length.
+    2:{ rewrite sc_enc32 by apply redn_range. apply redn_lt. }
+    rewrite sc_enc32 by apply redn_range. rewrite redn_add_r, (redn_small (sc a)) by lia.
+    rewrite Z.add_opp_r.
+    destruct (Z.eqb_spec (redn (sc a - sc b)) 0) as [Z0|NZ]; [|split; reflexivity].
+    exfalso. assert (EQ : sc a = sc b) by (unfold redn, secp_n in *; lia).
+    rewrite <- (enc32_sc a La), <- (enc32_sc b Lb), EQ, bytes_eqb_refl in E. discriminate E.
 Qed.
 
 (* ---------- ComputeAndAddToScalarOffset in closed form ---------- *)
@@ -264,43 +271,50 @@ Definition add_closed (s : option bytes) (v : N) (a b : option bytes) : soutcome
       match calc_closed v a b with
       | SOErr => SOErr
       | SOOk off =>
-          match s with
-          | None => SOOk off
-          | Some x =>
-              match off with
-              | None => SOErr
-              | Some o => SOOk (Some (enc32 (redn (sc x + sc o))))
+          match off with
+          | None => SOOk s
+          | Some o =>
+              match s with
+              | None => SOOk off
+              | Some x => SOOk (Some (enc32 (redn (sc x + sc o))))
               end
           end
       end
   end.
 
+Lemma dat_scopy o : dat (scopy o) = dat o.
+Proof. destruct o as [[? ?]|]; reflexivity. Qed.
+
 Lemma add_tail S off w : okscalar (dat S) -> okscalar (dat off) ->
   let nv := scopy off in
   let s := scopy S in
   let r :=
-    match s with
-    | None => (SOk off, w)
+    match off with
+    | None => (SOk s, w)
     | Some _ =>
-        let '(ok, nv, w) := sinplace ec_negate nv w in
-        if negb ok then (SErr, w) else
-        if sbuf_eqb s nv then (SOk (Some szero_buf), w) else
-        let '(ok, s, w) := sinplace (fun k => ec_tweak_add k (sdat off)) s w in
-        if negb ok then (SErr, w) else (SOk s, w)
+      match s with
+      | None => (SOk off, w)
+      | Some _ =>
+          let '(ok, nv, w) := sinplace ec_negate nv w in
+          if negb ok then (SErr, w) else
+          if sbuf_eqb s nv then (SOk (Some szero_buf), w) else
+          let '(ok, s, w) := sinplace (fun k => ec_tweak_add k (sdat off)) s w in
+          if negb ok then (SErr, w) else (SOk s, w)
+      end
     end in
   snd r = w /\
   sout_of (fst r) =
-    match dat S with
-    | None => SOOk (dat off)
-    | Some x => match dat off with None => SOErr | Some o => SOOk (Some (enc32 (redn (sc x + sc o)))) end
+    match dat off with
+    | None => SOOk (dat S)
+    | Some o => match dat S with None => SOOk (dat off) | Some x => SOOk (Some (enc32 (redn (sc x + sc o)))) end
     end.
 Proof.
   intros HS Ho. cbv zeta.
+  destruct off as [[oo o]|]; cbn [scopy dat option_map sb_dat] in *.
+  2:{ split; [reflexivity|]. cbn [fst sout_of]. fold (dat (scopy S)). rewrite dat_scopy. reflexivity. }
   destruct S as [[os x]|]; cbn [scopy dat option_map sb_dat] in *.
   2:{ split; reflexivity. }
   destruct HS as [Lx Bx]. pose proof (sc_nonneg x) as Px.
-  destruct off as [[oo o]|]; cbn [scopy dat option_map sb_dat] in *.
-  2:{ split; reflexivity. }
   destruct Ho as [Lo Bo]. pose proof (sc_nonneg o) as Po.
   rewrite sinplace_local, ec_negate_32 by assumption. cbn [fst snd negb].
   unfold sbuf_eqb. cbn [sdat sb_dat].
@@ -318,9 +332,6 @@ Proof.
     + cbn [fst snd negb sout_of option_map sb_dat]. split; reflexivity.
 Qed.
 
-Lemma dat_scopy o : dat (scopy o) = dat o.
-Proof. destruct o as [[? ?]|]; reflexivity. Qed.
-
 Lemma add_w_closed S v A B w : (v < 2 ^ 64)%N -> okscalar (dat S) -> okscalar (dat A) -> okscalar (dat B) ->
   snd (add_offset_w S v A B w) = w /\
   sout_of (fst (add_offset_w S v A B w)) = add_closed (dat S) v (dat A) (dat B).
@@ -331,6 +342,9 @@ Proof.
       match r with
       | SErr => (SErr, w)
       | SOk scalarOffset =>
+        match scalarOffset with
+        | None => (SOk (scopy S), w)
+        | Some _ =>
           match scopy S with
           | None => (SOk scalarOffset, w)
           | Some _ =>
@@ -341,15 +355,16 @@ Proof.
               let '(ok, s, w) := sinplace (fun k => ec_tweak_add k (sdat scalarOffset)) (scopy S) w in
               if negb ok then (SErr, w) else (SOk s, w)
           end
+        end
       end in
     snd r = w /\
     sout_of (fst r) =
       match calc_closed v (dat A) (dat B) with
       | SOErr => SOErr
       | SOOk off =>
-          match dat S with
-          | None => SOOk off
-          | Some x => match off with None => SOErr | Some o => SOOk (Some (enc32 (redn (sc x + sc o)))) end
+          match off with
+          | None => SOOk (dat S)
+          | Some o => match dat S with None => SOOk off | Some x => SOOk (Some (enc32 (redn (sc x + sc o)))) end
           end
       end).
   { intros A' B' EA EB. cbv zeta.
@@ -390,8 +405,9 @@ Qed.
 Lemma sub_w_log A B w : snd (sub_scalars_w A B w) = w.
 Proof.
   unfold sub_scalars_w.
-  destruct A as [[oa a]|], B as [[ob b]|]; cbn [scopy]; try reflexivity; local_call.
-  local_call.
+  destruct A as [[oa a]|], B as [[ob b]|]; cbn [scopy andb]; try reflexivity.
+  - destruct (sbuf_eqb _ _); [reflexivity|]. local_call. local_call.
+  - local_call.
 Qed.
 
 Lemma add_w_log S v A B w : snd (add_offset_w S v A B w) = w.
@@ -401,6 +417,9 @@ Proof.
       match r with
       | SErr => (SErr, w)
       | SOk scalarOffset =>
+        match scalarOffset with
+        | None => (SOk (scopy S), w)
+        | Some _ =>
           match scopy S with
           | None => (SOk scalarOffset, w)
           | Some _ =>
@@ -411,13 +430,14 @@ Proof.
               let '(ok, s, w) := sinplace (fun k => ec_tweak_add k (sdat scalarOffset)) (scopy S) w in
               if negb ok then (SErr, w) else (SOk s, w)
           end
+        end
       end) = w).
   { intros A' B'. pose proof (calc_w_log v A' B' w) as W.
     destruct (calc_offset_w v A' B' w) as [r w']. cbn [snd] in W. subst w'.
     destruct r as [off|]; [|reflexivity].
+    destruct off as [[oo o]|]; [|reflexivity].
     destruct S as [[os x]|]; cbn [scopy]; [|reflexivity]. cbv zeta.
-    destruct off as [[oo o]|]; cbn [scopy]; local_call;
-      (destruct (sbuf_eqb _ _); [reflexivity|]; local_call). }
+    local_call; (destruct (sbuf_eqb _ _); [reflexivity|]; local_call). }
   unfold add_offset_w.
   destruct A as [[oa a]|], B as [[ob b]|]; cbn [scopy]; try apply G. reflexivity.
 Qed.
@@ -458,166 +478,260 @@ Proof. destruct o as [b|]; cbn [okscalar sval]; [intros [_ B]; pose proof (sc_no
 Lemma sval_enc z : sval (Some (enc32 (redn z))) = modn z.
 Proof. cbn [sval]. rewrite sc_enc32 by apply redn_range. reflexivity. Qed.
 
-(* CalculateScalarOffset: whenever it answers, the answer is value * ab + vb (mod n), nil counting as 0 *)
-Theorem calc_offset_spec v ab vb r : (v < 2 ^ 64)%N -> okscalar ab -> okscalar vb ->
-  calc_offset v ab vb = SOOk r ->
-  okscalar r /\ sval r = modn (Z.of_N v * sval ab + sval vb).
-Proof.
-  intros Hv Ha Hb. rewrite calc_offset_closed by assumption. intro C.
-  split; [exact (calc_closed_ok v ab vb r Ha Hb C)|].
-  pose proof (sval_small vb Hb) as Sb. unfold calc_closed in C.
-  destruct ab as [x|]; cbn [sval].
-  - destruct (N.ltb_spec 0 v) as [P|Z0].
-    + destruct vb as [y|]; [|discriminate]. inversion C; subst. apply sval_enc.
-    + inversion C; subst. assert (v = 0%N) by lia. subst v.
-      unfold modn. rewrite Z.mul_0_l, Z.add_0_l, Z.mod_small by lia. reflexivity.
-  - inversion C; subst. unfold modn. rewrite Z.mul_0_r, Z.add_0_l, Z.mod_small by lia. reflexivity.
-Qed.
+Lemma modn_small z : 0 <= z < secp_n -> modn z = z.
+Proof. intro H. unfold modn. apply Z.mod_small. exact H. Qed.
 
-(* ... and it refuses to answer exactly when the value is non-zero, the asset blinder is present
-   and the value blinder is absent *)
-Theorem calc_offset_error_iff v ab vb : (v < 2 ^ 64)%N -> okscalar ab -> okscalar vb ->
-  (calc_offset v ab vb = SOErr <-> (0 < v)%N /\ ab <> None /\ vb = None).
-Proof.
-  intros Hv Ha Hb. rewrite calc_offset_closed by assumption. unfold calc_closed.
-  destruct ab as [x|].
-  - destruct (N.ltb_spec 0 v) as [P|Z0].
-    + destruct vb as [y|].
-      * split; [discriminate | intros (_ & _ & E); discriminate E].
-      * split; [intros _; repeat split; [exact P | discriminate] | reflexivity].
-    + split; [discriminate | intros (P & _); lia].
-  - split; [discriminate | intros (_ & E & _); contradiction].
-Qed.
-
-(* FULL STATEMENT (what the property text asks for; false of the code, see calc_offset_total_refuted):
-     forall v ab vb, v < 2^64 -> okscalar ab -> okscalar vb ->
-       exists r, calc_offset v ab vb = SOOk r /\ sval r = modn (v * sval ab + sval vb).
-   Proved outside the error region: *)
-Theorem calc_offset_total_partial v ab vb : (v < 2 ^ 64)%N -> okscalar ab -> okscalar vb ->
-  ~ ((0 < v)%N /\ ab <> None /\ vb = None) ->
+(* FULL STATEMENT: for every 64-bit value and all scalars that are absent or 32 bytes below n,
+   CalculateScalarOffset answers, and the answer is value * ab + vb (mod n), nil counting as 0 *)
+Theorem calc_offset_total v ab vb : (v < 2 ^ 64)%N -> okscalar ab -> okscalar vb ->
   exists r, calc_offset v ab vb = SOOk r /\ okscalar r /\ sval r = modn (Z.of_N v * sval ab + sval vb).
 Proof.
-  intros Hv Ha Hb NE. destruct (calc_offset v ab vb) as [r|] eqn:E.
-  - exists r. split; [reflexivity|]. exact (calc_offset_spec v ab vb r Hv Ha Hb E).
-  - exfalso. apply NE. apply calc_offset_error_iff; assumption.
+  intros Hv Ha Hb. rewrite calc_offset_closed by assumption.
+  pose proof (sval_small vb Hb) as Sb. unfold calc_closed.
+  destruct ab as [x|]; cbn [sval].
+  - destruct (N.ltb_spec 0 v) as [P|Z0].
+    + eexists. split; [reflexivity|]. split; [apply okscalar_enc | apply sval_enc].
+    + exists vb. split; [reflexivity|]. split; [exact Hb|]. assert (v = 0%N) by lia. subst v.
+      rewrite Z.mul_0_l, Z.add_0_l, modn_small by lia. reflexivity.
+  - exists vb. split; [reflexivity|]. split; [exact Hb|].
+    rewrite Z.mul_0_r, Z.add_0_l, modn_small by lia. reflexivity.
 Qed.
 
-Definition one32 : bytes := enc32 1.
-
-Theorem calc_offset_total_refuted :
-  exists v ab vb, (v < 2 ^ 64)%N /\ okscalar ab /\ okscalar vb /\ calc_offset v ab vb = SOErr.
-Proof.
-  exists 1%N, (Some one32), None. repeat split; try (vm_compute; reflexivity).
-Qed.
-
-(* SubtractScalars *)
-Theorem sub_scalars_spec a b r : okscalar a -> okscalar b ->
-  sub_scalars a b = SOOk r -> okscalar r /\ sval r = modn (sval a - sval b).
+Theorem sub_scalars_total a b : okscalar a -> okscalar b ->
+  exists r, sub_scalars a b = SOOk r /\ okscalar r /\ sval r = modn (sval a - sval b).
 Proof.
   intros Ha Hb. rewrite sub_scalars_closed by assumption. unfold sub_closed.
   pose proof (sval_small a Ha) as Sa.
   destruct b as [y|].
-  - destruct a as [x|].
-    + destruct (redn (sc x - sc y) =? 0); [discriminate|]. intro C; inversion C; subst.
-      split; [apply okscalar_enc | apply sval_enc].
-    + intro C; inversion C; subst. split; [apply okscalar_enc|]. rewrite sval_enc. reflexivity.
-  - intro C; inversion C; subst. split; [exact Ha|].
-    cbn [sval]. unfold modn. rewrite Z.sub_0_r, Z.mod_small by lia. reflexivity.
+  - destruct a as [x|]; (eexists; split; [reflexivity|]; split; [apply okscalar_enc|]); rewrite sval_enc; reflexivity.
+  - exists a. split; [reflexivity|]. split; [exact Ha|].
+    cbn [sval]. rewrite Z.sub_0_r, modn_small by lia. reflexivity.
 Qed.
 
-(* it refuses to answer exactly when both operands are present and equal (difference zero) *)
-Theorem sub_scalars_error_iff a b : okscalar a -> okscalar b ->
-  (sub_scalars a b = SOErr <-> a <> None /\ b <> None /\ sval a = sval b).
-Proof.
-  intros Ha Hb. rewrite sub_scalars_closed by assumption. unfold sub_closed.
-  pose proof (sval_small a Ha) as Sa. pose proof (sval_small b Hb) as Sb.
-  destruct b as [y|].
-  - destruct a as [x|]; cbn [sval] in *.
-    + destruct (Z.eqb_spec (redn (sc x - sc y)) 0) as [Z0|NZ].
-      * split; [|reflexivity]. intros _. repeat split; try discriminate.
-        unfold redn, secp_n in *. lia.
-      * split; [discriminate|]. intros (_ & _ & E). exfalso. apply NZ.
-        rewrite E, Z.sub_diag. reflexivity.
-    + split; [discriminate | intros (E & _); contradiction].
-  - split; [discriminate | intros (_ & E & _); contradiction].
-Qed.
-
-(* FULL STATEMENT (false of the code, see sub_scalars_total_refuted):
-     forall a b, okscalar a -> okscalar b -> exists r, sub_scalars a b = SOOk r /\ sval r = modn (sval a - sval b). *)
-Theorem sub_scalars_total_partial a b : okscalar a -> okscalar b ->
-  ~ (a <> None /\ b <> None /\ sval a = sval b) ->
-  exists r, sub_scalars a b = SOOk r /\ okscalar r /\ sval r = modn (sval a - sval b).
-Proof.
-  intros Ha Hb NE. destruct (sub_scalars a b) as [r|] eqn:E.
-  - exists r. split; [reflexivity|]. exact (sub_scalars_spec a b r Ha Hb E).
-  - exfalso. apply NE. apply sub_scalars_error_iff; assumption.
-Qed.
-
-Theorem sub_scalars_total_refuted :
-  exists a b, okscalar a /\ okscalar b /\ sub_scalars a b = SOErr.
-Proof.
-  exists (Some one32), (Some one32). repeat split; try (vm_compute; reflexivity).
-Qed.
-
-(* ComputeAndAddToScalarOffset *)
-Theorem add_offset_spec s v ab vb r : (v < 2 ^ 64)%N -> okscalar s -> okscalar ab -> okscalar vb ->
-  add_offset s v ab vb = SOOk r ->
-  okscalar r /\ sval r = modn (sval s + Z.of_N v * sval ab + sval vb).
+Theorem add_offset_total s v ab vb : (v < 2 ^ 64)%N -> okscalar s -> okscalar ab -> okscalar vb ->
+  exists r, add_offset s v ab vb = SOOk r /\ okscalar r /\
+            sval r = modn (sval s + Z.of_N v * sval ab + sval vb).
 Proof.
   intros Hv Hs Ha Hb. rewrite add_offset_closed by assumption. unfold add_closed.
   pose proof (sval_small s Hs) as Ss.
-  assert (G : match calc_closed v ab vb with
-              | SOErr => SOErr
-              | SOOk off => match s with
-                            | None => SOOk off
-                            | Some x => match off with None => SOErr | Some o => SOOk (Some (enc32 (redn (sc x + sc o)))) end
-                            end
-              end = SOOk r -> okscalar r /\ sval r = modn (sval s + Z.of_N v * sval ab + sval vb)).
+  assert (G : exists r,
+      match calc_closed v ab vb with
+      | SOErr => SOErr
+      | SOOk off => match off with
+                    | None => SOOk s
+                    | Some o => match s with None => SOOk off | Some x => SOOk (Some (enc32 (redn (sc x + sc o)))) end
+                    end
+      end = SOOk r /\ okscalar r /\ sval r = modn (sval s + Z.of_N v * sval ab + sval vb)).
   { rewrite <- calc_offset_closed by assumption.
-    destruct (calc_offset v ab vb) as [off|] eqn:E; [|discriminate].
-    destruct (calc_offset_spec v ab vb off Hv Ha Hb E) as [Oo Vo].
-    destruct s as [x|]; cbn [sval].
-    - destruct off as [o|]; [|discriminate]. intro C; inversion C; subst.
-      split; [apply okscalar_enc|]. rewrite sval_enc. cbn [sval] in Vo. rewrite Vo.
-      unfold modn. rewrite Z.add_mod_idemp_r by (pose proof secp_n_pos; lia). f_equal. lia.
-    - intro C; inversion C; subst. split; [exact Oo|]. rewrite Vo. f_equal. }
-  destruct ab as [a|], vb as [b|]; try exact G.
-  intro C; inversion C; subst. split; [exact Hs|]. cbn [sval]. unfold modn.
-  rewrite Z.mul_0_r, !Z.add_0_r, Z.mod_small by lia. reflexivity.
+    destruct (calc_offset_total v ab vb Hv Ha Hb) as (off & E & Oo & Vo). rewrite E.
+    destruct off as [o|].
+    - destruct s as [x|]; cbn [sval] in *.
+      + eexists. split; [reflexivity|]. split; [apply okscalar_enc|]. rewrite sval_enc, Vo.
+        unfold modn. rewrite Z.add_mod_idemp_r by (pose proof secp_n_pos; lia). f_equal. lia.
+      + exists (Some o). split; [reflexivity|]. split; [exact Oo|]. cbn [sval]. rewrite Vo. f_equal.
+    - exists s. split; [reflexivity|]. split; [exact Hs|]. cbn [sval] in Vo.
+      rewrite <- Z.add_assoc. unfold modn in *. rewrite <- Z.add_mod_idemp_r, <- Vo by (pose proof secp_n_pos; lia).
+      rewrite Z.add_0_r, Z.mod_small by lia. reflexivity. }
+  destruct ab as [a|], vb as [b|]; exact G.
 Qed.
 
-Theorem add_offset_error_iff s v ab vb : (v < 2 ^ 64)%N -> okscalar s -> okscalar ab -> okscalar vb ->
-  (add_offset s v ab vb = SOErr <-> ab <> None /\ vb = None /\ ((0 < v)%N \/ s <> None)).
+(* corollaries in the shape used before the repair: a returned value is the arithmetic result,
+   and no input of the property's domain is refused *)
+Corollary calc_offset_spec v ab vb r : (v < 2 ^ 64)%N -> okscalar ab -> okscalar vb ->
+  calc_offset v ab vb = SOOk r -> okscalar r /\ sval r = modn (Z.of_N v * sval ab + sval vb).
 Proof.
-  intros Hv Hs Ha Hb. rewrite add_offset_closed by assumption. unfold add_closed.
-  destruct ab as [a|], vb as [b|]; unfold calc_closed.
-  - destruct (0 <? v)%N; (destruct s; (split; [discriminate | intros (_ & E & _); discriminate E])).
-  - destruct (N.ltb_spec 0 v) as [P|Z0].
-    + split; [|reflexivity]. intros _. repeat split; [discriminate | left; exact P].
-    + destruct s as [x|].
-      * split; [|reflexivity]. intros _. repeat split; [discriminate | right; discriminate].
-      * split; [discriminate|]. intros (_ & _ & [P|E]); [lia | contradiction].
-  - destruct s; (split; [discriminate | intros (E & _); contradiction]).
-  - split; [discriminate | intros (E & _); contradiction].
+  intros Hv Ha Hb E. destruct (calc_offset_total v ab vb Hv Ha Hb) as (r' & E' & H). congruence.
+Qed.
+Corollary scalar_helpers_never_refuse_in_domain s v ab vb : (v < 2 ^ 64)%N -> okscalar s -> okscalar ab -> okscalar vb ->
+  calc_offset v ab vb <> SOErr /\ sub_scalars ab vb <> SOErr /\ add_offset s v ab vb <> SOErr.
+Proof.
+  intros Hv Hs Ha Hb.
+  destruct (calc_offset_total v ab vb Hv Ha Hb) as (r1 & E1 & _).
+  destruct (sub_scalars_total ab vb Ha Hb) as (r2 & E2 & _).
+  destruct (add_offset_total s v ab vb Hv Hs Ha Hb) as (r3 & E3 & _).
+  rewrite E1, E2, E3. repeat split; discriminate.
 Qed.
 
-(* FULL STATEMENT (false of the code, see add_offset_total_refuted):
-     forall s v ab vb, v < 2^64 -> okscalar s -> okscalar ab -> okscalar vb ->
-       exists r, add_offset s v ab vb = SOOk r /\ sval r = modn (sval s + v * sval ab + sval vb). *)
-Theorem add_offset_total_partial s v ab vb : (v < 2 ^ 64)%N -> okscalar s -> okscalar ab -> okscalar vb ->
-  ~ (ab <> None /\ vb = None /\ ((0 < v)%N \/ s <> None)) ->
-  exists r, add_offset s v ab vb = SOOk r /\ okscalar r /\ sval r = modn (sval s + Z.of_N v * sval ab + sval vb).
+(* ---------- what is still refused: operands outside the property's domain ---------- *)
+Lemma redn_sub_r a b : redn (a - redn b) = redn (a - b).
+Proof. unfold redn. apply Zminus_mod_idemp_r. Qed.
+
+Lemma len32_enc32 z : len32 (enc32 z) = true.
+Proof. apply len32_true, enc32_length. Qed.
+
+Lemma bytes_eqb_enc32 x y : 0 <= x < two256 -> 0 <= y < two256 -> bytes_eqb (enc32 x) (enc32 y) = (x =? y).
 Proof.
-  intros Hv Hs Ha Hb NE. destruct (add_offset s v ab vb) as [r|] eqn:E.
-  - exists r. split; [reflexivity|]. exact (add_offset_spec s v ab vb r Hv Hs Ha Hb E).
-  - exfalso. apply NE. apply add_offset_error_iff; assumption.
+  intros Hx Hy. destruct (Z.eqb_spec x y) as [E|NE].
+  - subst. apply bytes_eqb_refl.
+  - destruct (bytes_eqb (enc32 x) (enc32 y)) eqn:B; [|reflexivity].
+    apply bytes_eqb_eq, enc32_inj in B; try assumption. contradiction.
 Qed.
 
-Theorem add_offset_total_refuted :
-  exists s v ab vb, (v < 2 ^ 64)%N /\ okscalar s /\ okscalar ab /\ okscalar vb /\ add_offset s v ab vb = SOErr.
+(* SubtractScalars on arbitrary byte strings *)
+Definition sub_general (a b : option bytes) : soutcome :=
+  match b with
+  | None => SOOk a
+  | Some y =>
+      match a with
+      | Some x =>
+          if bytes_eqb x y then SOOk (Some zero32)
+          else if len32 y then
+            if len32 x then
+              if redn (sc x - sc y) =? 0 then SOErr else SOOk (Some (enc32 (redn (sc x - sc y))))
+            else SOErr
+          else SOErr
+      | None => if len32 y then SOOk (Some (enc32 (redn (- redn (sc y))))) else SOErr
+      end
+  end.
+
+Lemma sub_w_general A B w : sout_of (fst (sub_scalars_w A B w)) = sub_general (dat A) (dat B).
 Proof.
-  exists (Some one32), 0%N, (Some one32), None. repeat split; try (vm_compute; reflexivity).
+  unfold sub_scalars_w, sub_general.
+  destruct B as [[ob y]|]; cbn [scopy dat option_map sb_dat].
+  2:{ destruct A as [[oa x]|]; reflexivity. }
+  destruct A as [[oa x]|]; cbn [scopy dat option_map sb_dat andb].
+  - unfold sbuf_eqb. cbn [sdat sb_dat]. destruct (bytes_eqb x y); [reflexivity|].
+    rewrite sinplace_local. destruct (len32 y) eqn:Ly.
+    2:{ unfold ec_negate. rewrite Ly. reflexivity. }
+    rewrite ec_negate_32 by (apply len32_true; exact Ly). cbn [fst snd negb].
+    rewrite sinplace_local. cbv beta. cbn [sdat sb_dat]. unfold ec_tweak_add.
+    rewrite len32_enc32. cbn [negb]. destruct (len32 x) eqn:Lx; cbn [negb fst snd]; [|reflexivity].
+    rewrite sc_enc32 by apply redn_range.
+    destruct (Z.leb_spec secp_n (redn (- redn (sc y)))) as [C|_]; [pose proof (redn_lt (- redn (sc y))); lia|].
+    unfold redn. pose proof secp_n_pos as P.
+    rewrite Z.add_mod_idemp_l, Z.add_mod_idemp_r by lia. rewrite Z.add_opp_r, Zminus_mod_idemp_r.
+    destruct ((sc x - sc y) mod secp_n =? 0); reflexivity.
+  - rewrite sinplace_local. destruct (len32 y) eqn:Ly.
+    + rewrite ec_negate_32 by (apply len32_true; exact Ly). reflexivity.
+    + unfold ec_negate. rewrite Ly. reflexivity.
 Qed.
+
+Lemma len32_false b : len32 b = false <-> length b <> 32%nat.
+Proof. unfold len32. apply Nat.eqb_neq. Qed.
+
+(* exactly the inputs SubtractScalars refuses, over all byte strings: a wrong length that the
+   equal-operands branch does not catch, or different byte strings that are congruent modulo n
+   (which requires an operand >= n) *)
+Theorem sub_scalars_error_iff_general a b :
+  sub_scalars a b = SOErr <->
+  exists y, b = Some y /\
+    match a with
+    | None => length y <> 32%nat
+    | Some x => x <> y /\ (length y <> 32%nat \/ length x <> 32%nat \/ modn (sc x - sc y) = 0)
+    end.
+Proof.
+  unfold sub_scalars, go_sub_scalars. rewrite sub_w_general, !dat_sarg. unfold sub_general.
+  destruct b as [y|].
+  2:{ split; [discriminate | intros (y & E & _); discriminate E]. }
+  destruct a as [x|].
+  - destruct (bytes_eqb x y) eqn:E.
+    + apply bytes_eqb_eq in E. split; [discriminate|]. intros (y' & Ey & NE & _). inversion Ey; subst. contradiction.
+    + assert (NE : x <> y) by (intro X; subst; rewrite bytes_eqb_refl in E; discriminate E).
+      destruct (len32 y) eqn:Ly.
+      * destruct (len32 x) eqn:Lx.
+        -- apply len32_true in Ly, Lx.
+           destruct (Z.eqb_spec (redn (sc x - sc y)) 0) as [Z0|NZ].
+           ++ split; [|reflexivity]. intros _. exists y. split; [reflexivity|]. split; [exact NE|]. right; right. exact Z0.
+           ++ split; [discriminate|]. intros (y' & Ey & _ & [L|[L|M]]); inversion Ey; subst; contradiction.
+        -- apply len32_false in Lx. split; [|reflexivity]. intros _. exists y. split; [reflexivity|]. split; [exact NE|]. right; left; exact Lx.
+      * apply len32_false in Ly. split; [|reflexivity]. intros _. exists y. split; [reflexivity|]. split; [exact NE|]. left; exact Ly.
+  - destruct (len32 y) eqn:Ly.
+    + apply len32_true in Ly. split; [discriminate|]. intros (y' & Ey & L). inversion Ey; subst. contradiction.
+    + apply len32_false in Ly. split; [|reflexivity]. intros _. exists y. split; [reflexivity | exact Ly].
+Qed.
+
+(* CalculateScalarOffset on arbitrary byte strings (64-bit amount) *)
+Definition calc_general (v : N) (a b : option bytes) : soutcome :=
+  match a with
+  | None => SOOk b
+  | Some x =>
+      if (0 <? v)%N then
+        if len32 x then
+          let r := redn (redn (sc x) * Z.of_N v) in
+          match b with
+          | None => SOOk (Some (enc32 r))
+          | Some y =>
+              if len32 y then
+                if redn (r + sc y) =? 0 then SOOk (Some zero32)
+                else if secp_n <=? sc y then SOErr else SOOk (Some (enc32 (redn (r + sc y))))
+              else SOErr
+          end
+        else SOErr
+      else SOOk b
+  end.
+
+Lemma ec_tweak_mul_not32 k t : len32 k = false -> fst (ec_tweak_mul k t) = false.
+Proof. intro H. unfold ec_tweak_mul. destruct (len32 t); cbn [negb]; [rewrite H|]; reflexivity. Qed.
+
+Lemma calc_w_general v A B w : (v < 2 ^ 64)%N ->
+  sout_of (fst (calc_offset_w v A B w)) = calc_general v (dat A) (dat B).
+Proof.
+  intro Hv. unfold calc_offset_w, calc_general.
+  destruct A as [[oa x]|]; cbn [scopy dat option_map sb_dat].
+  2:{ destruct B as [[ob y]|]; reflexivity. }
+  destruct (N.ltb_spec 0 v) as [Hpos|Hz].
+  2:{ destruct B as [[ob y]|]; reflexivity. }
+  rewrite sinplace_local. cbv beta.
+  destruct (len32 x) eqn:Lx.
+  2:{ rewrite (ec_tweak_mul_not32 x _ Lx). reflexivity. }
+  apply len32_true in Lx. rewrite ec_tweak_mul_amount by (try assumption; lia). cbn [fst snd negb].
+  destruct B as [[ob y]|]; cbn [scopy dat option_map sb_dat]; [|reflexivity].
+  rewrite sinplace_local. destruct (len32 y) eqn:Ly.
+  2:{ unfold ec_negate. rewrite Ly. reflexivity. }
+  rewrite ec_negate_32 by (apply len32_true; exact Ly). cbn [fst snd negb].
+  unfold sbuf_eqb. cbn [sdat sb_dat]. rewrite bytes_eqb_enc32 by apply redn_range.
+  set (r := redn (redn (sc x) * Z.of_N v)).
+  assert (Rr : redn r = r) by (unfold r; apply redn_idem).
+  destruct (Z.eqb_spec (redn (- redn (sc y))) r) as [E|NE].
+  - rewrite <- Rr in E. apply redn_neg_eq in E. rewrite E. reflexivity.
+  - destruct (Z.eqb_spec (redn (r + sc y)) 0) as [Z0|NZ].
+    + exfalso. apply NE. rewrite <- Rr. apply redn_sum_zero. exact Z0.
+    + rewrite sinplace_local. cbv beta. cbn [sdat sb_dat]. unfold ec_tweak_add.
+      rewrite Ly, len32_enc32. cbn [negb].
+      destruct (secp_n <=? sc y); cbn [fst snd negb]; [reflexivity|].
+      rewrite sc_enc32 by (unfold r; apply redn_range).
+      change (r mod secp_n) with (redn r). rewrite Rr.
+      change ((r + sc y) mod secp_n) with (redn (r + sc y)).
+      destruct (Z.eqb_spec (redn (r + sc y)) 0) as [Z0|_]; [contradiction|]. reflexivity.
+Qed.
+
+(* exactly the inputs CalculateScalarOffset refuses, over all byte strings: a non-zero amount with
+   an asset blinder of the wrong length, a value blinder of the wrong length, or a value blinder
+   >= n (libsecp refuses the tweak) unless the sum is zero *)
+Theorem calc_offset_error_iff_general v ab vb : (v < 2 ^ 64)%N ->
+  (calc_offset v ab vb = SOErr <->
+   exists x, ab = Some x /\ (0 < v)%N /\
+     (length x <> 32%nat \/
+      exists y, vb = Some y /\
+        (length y <> 32%nat \/ (secp_n <= sc y /\ modn (sc x * Z.of_N v + sc y) <> 0)))).
+Proof.
+  intro Hv. unfold calc_offset, go_calc_offset. rewrite calc_w_general, !dat_sarg by exact Hv. unfold calc_general.
+  destruct ab as [x|].
+  2:{ split; [discriminate | intros (x & E & _); discriminate E]. }
+  destruct (N.ltb_spec 0 v) as [Hpos|Hz].
+  2:{ split; [discriminate | intros (x' & _ & P & _); lia]. }
+  destruct (len32 x) eqn:Lx.
+  2:{ apply len32_false in Lx. split; [|reflexivity]. intros _. exists x. repeat split; [exact Hpos | left; exact Lx]. }
+  apply len32_true in Lx.
+  assert (M : forall y, redn (redn (redn (sc x) * Z.of_N v) + sc y) = modn (sc x * Z.of_N v + sc y)).
+  { intro y. unfold redn, modn. pose proof secp_n_pos as P. rewrite Z.add_mod_idemp_l by lia.
+    rewrite <- (Z.add_mod_idemp_l (sc x mod secp_n * Z.of_N v)) by lia.
+    rewrite Z.mul_mod_idemp_l by lia. rewrite Z.add_mod_idemp_l by lia. reflexivity. }
+  destruct vb as [y|].
+  2:{ split; [discriminate|]. intros (x' & Ex & _ & [L|(y & Ey & _)]); inversion Ex; subst; [contradiction | discriminate Ey]. }
+  destruct (len32 y) eqn:Ly.
+  2:{ apply len32_false in Ly. split; [|reflexivity]. intros _. exists x. repeat split; [exact Hpos|]. right. exists y. split; [reflexivity | left; exact Ly]. }
+  apply len32_true in Ly. cbv zeta. rewrite M.
+  destruct (Z.eqb_spec (modn (sc x * Z.of_N v + sc y)) 0) as [Z0|NZ].
+  - split; [discriminate|]. intros (x' & Ex & _ & [L|(y' & Ey & [L|[_ N0]])]); inversion Ex; subst; try contradiction;
+      inversion Ey; subst; contradiction.
+  - destruct (Z.leb_spec secp_n (sc y)) as [G|L].
+    + split; [|reflexivity]. intros _. exists x. repeat split; [exact Hpos|]. right. exists y. split; [reflexivity|]. right. split; assumption.
+    + split; [discriminate|]. intros (x' & Ex & _ & [L'|(y' & Ey & [L'|[G _]])]); inversion Ex; subst; try contradiction;
+        inversion Ey; subst; [contradiction | lia].
+Qed.
+
+Definition one32 : bytes := enc32 1.
 
 (* the arguments are never written: every input, every length, no hypothesis *)
 Lemma sarg_after_nil i before : sarg_after i before [] = before.
@@ -639,13 +753,22 @@ Proof.
   destruct scalar_helpers_leave_arguments_alone as (A & B & C). rewrite A, B, C. repeat split.
 Qed.
 
-(* results that wrap to zero are returned as 32 zero bytes (examples inside the kernel) *)
+(* the cases the repair added, and results that wrap to zero, evaluated inside the kernel *)
 Definition nm1 : bytes := enc32 (secp_n - 1).
 Example calc_wraps_to_zero : calc_offset 1 (Some one32) (Some nm1) = SOOk (Some zero32).
 Proof. vm_compute. reflexivity. Qed.
 Example add_wraps_to_zero : add_offset (Some nm1) 0 None (Some one32) = SOOk (Some zero32).
 Proof. vm_compute. reflexivity. Qed.
 Example sub_wraps_around : sub_scalars (Some zero32) (Some one32) = SOOk (Some nm1).
+Proof. vm_compute. reflexivity. Qed.
+Example sub_equal_operands : sub_scalars (Some nm1) (Some nm1) = SOOk (Some zero32).
+Proof. vm_compute. reflexivity. Qed.
+Example calc_absent_value_blinder : calc_offset 2 (Some one32) None = SOOk (Some (enc32 2)).
+Proof. vm_compute. reflexivity. Qed.
+Example add_absent_value_blinder_zero_amount : add_offset (Some one32) 0 (Some one32) None = SOOk (Some one32).
+Proof. vm_compute. reflexivity. Qed.
+(* still refused, outside the domain: n and 0 are different byte strings congruent modulo n *)
+Example sub_refuses_unreduced_equal : sub_scalars (Some (enc32 secp_n)) (Some zero32) = SOErr.
 Proof. vm_compute. reflexivity. Qed.
 Example hyps_satisfiable : okscalar (Some nm1) /\ okscalar None /\ okscalar (Some zero32).
 Proof. repeat split; vm_compute; reflexivity. Qed.
